@@ -13,6 +13,7 @@ Dynamic Time Warping (DTW)
 import logging
 import array
 import math
+import numbers
 
 from . import ed
 from . import util
@@ -144,6 +145,9 @@ class DTWSettings:
         self.max_step = max_step
         self.max_length_diff = max_length_diff
         self.penalty = penalty
+        if isinstance(psi, numbers.Integral) and not isinstance(psi, bool):
+            # Also accept integer types that are not int (e.g. numpy.int64)
+            psi = int(psi)
         self.psi = psi
         self.inner_dist = inner_dist
         self.use_ndim = use_ndim
